@@ -9,7 +9,8 @@ from pbt.runner import Violation, hyp_search
 LEVEL = 'fault_enumeration'
 SHARDS = {'quick': 8, 'thorough': 16}
 RULE = ('Hypothesis generates sequential programs (instance and class-level operations, handlers, sleeps of 0-3 ms, recording '
-        'switched off / on again in the middle of the operation); the '
+        'switched off / on again in the middle of the operation, a call of another decorated operation of the same recorder '
+        'which is refused while a recording runs); the '
         'harness enumerates every termination mode at every step - return, ordinary exception, interrupt-style '
         'BaseException, raised by the operation between steps or inside an intercepted input/output body, incl. after '
         'outputs were captured - crossed with metadata extractors that succeed, raise or return junk (None, int, list), '
@@ -164,7 +165,7 @@ def replay(ctx, case):
 
 @st.composite
 def bases(draw):
-    prog = draw(FR.base_programs(max_steps=4))
+    prog = draw(FR.with_nested_operation(FR.base_programs(max_steps=4)))
     # sprinkle short sleeps
     for _ in range(draw(st.integers(0, 2))):
         prog['steps'].insert(draw(st.integers(0, len(prog['steps']))), {'t': 'sleep', 'ms': draw(st.integers(1, 3))})
